@@ -308,7 +308,13 @@ class Build:
         if op == "idx":
             return x[0][tuple(i if i >= 0 else self.index(i) for i in a)]
         if op == "cond":
-            return ufl.conditional(getattr(ufl, CMP[a[0]])(x[0], x[1]), x[2], x[3])
+            # the condition classes, not ufl.lt(l, r) = (l < r): Python evaluates that as r.__gt__(l), i.e.
+            # builds GT(r, l), when type(r) is a proper subclass of type(l) (a plain Coefficient compared
+            # with an instance of a user subclass) -- another expression than the one the program names
+            # (recorded by the extra pair "lt-with-subclass-operand")
+            from ufl import classes
+
+            return ufl.conditional(getattr(classes, CMP[a[0]].upper())(x[0], x[1]), x[2], x[3])
         if op == "res":
             return x[0]("+" if a[0] == 1 else "-")
         if op == "dx":
